@@ -141,3 +141,29 @@ impl<I: Iterator> Iterator for NoHint<I> {
         (0, None)
     }
 }
+
+/// A NON-FUSED iterator: yields the items of the wrapped iterator, but answers `None` once before item number `gap`
+/// (and goes on yielding afterwards), like `map_while`, `scan`, a channel's `try_iter` or a batch reader. A consumer
+/// such as `sum()` / `product()` must stop at the first `None`; what is left must still be there.
+pub struct Gap<I> {
+    pub it: I,
+    pub gap: usize,
+    pub pos: usize,
+    pub done: bool,
+}
+impl<I: Iterator> Gap<I> {
+    pub fn new(it: I, gap: usize) -> Self {
+        Gap { it, gap, pos: 0, done: false }
+    }
+}
+impl<I: Iterator> Iterator for Gap<I> {
+    type Item = I::Item;
+    fn next(&mut self) -> Option<I::Item> {
+        if self.pos == self.gap && !self.done {
+            self.done = true;
+            return None;
+        }
+        self.pos += 1;
+        self.it.next()
+    }
+}
